@@ -103,6 +103,8 @@ class STIXdatetime(dt.datetime):
                 dttm.year, dttm.month, dttm.day, dttm.hour, dttm.minute,
                 dttm.second, dttm.microsecond, dttm.tzinfo,
             )
+            # (of an ambiguous local time, keep which of the two it is)
+            kwargs.setdefault("fold", dttm.fold)
         # self will be an instance of STIXdatetime, not dt.datetime
         self = dt.datetime.__new__(cls, *args, **kwargs)
         self.precision = precision
